@@ -44,6 +44,14 @@ def run(tier, seed):
                             fam=fam, nsample=12000)
     st["traces"] += cst["traces"]; st["states"] += cst["states"]; st["transitions"] += cst["transitions"]
     st["events"] += cst["events"]
+    # offloaded values: a reader overtaken by a replacement whose deadline has already passed (the stale-extent
+    # fallback re-reads the current generation: every read path must still apply the expiry test to it)
+    efam = ce.expired_update_family()
+    if tier == "quick":
+        efam = [x for x in efam if "_n_" in x[0]] + [x for x in efam if "_c_get" in x[0]]
+    eres = ce.run_dfs(fxv, rd, efam, "expupd", chunk=1, maxsched=60 if tier == "quick" else 400, preempt=2, par=8)
+    collect(PROP, eres, rd, ["Linearizable", "SweepSafe"], viol, cst)
+    st["traces"] += 0
     # restart part: the newest generation of a key has expired while the store was closed and sits at a LOWER
     # sector than the older generation a crash left unretired: whatever order the scan meets them in, no older
     # generation reappears (RealWindow on the real recovery of such images, TraceDisk.tla; crash engine)
